@@ -176,6 +176,7 @@ void sim_fd_pipe(simproc *p, int fd, int pipeid, int writer) {
 static pthread_mutex_t mu = PTHREAD_MUTEX_INITIALIZER;
 static pthread_cond_t cv = PTHREAD_COND_INITIALIZER;
 static int running = -1;
+static void sim_block(int (*pred)(simproc *), const char *what);
 static int default_pick(int n, int *idx, const char **what) { return 0; }
 int (*sim_pick)(int n, int *idx, const char **what) = default_pick;
 
@@ -270,6 +271,7 @@ static void *thread_main(void *arg) {
   while (running != p->idx) pthread_cond_wait(&cv, &mu);
   pthread_mutex_unlock(&mu);
   if (world_crashed) { p->crashed = 1; proc_leave(p); }
+  if (p->start_pred) sim_block(p->start_pred, "start");
   sim_on = 1;
   int r = p->mainfn();
   sim_on = 0;
@@ -319,6 +321,7 @@ void sim_run_all(void) {
   for (int i = 0; i < SIM_MAXPROC; i++) if (P[i].used && P[i].mainfn) { pthread_join(P[i].th, 0); P[i].mainfn = 0; }
 }
 
+void sim_wait(int (*pred)(simproc *), const char *what);
 /* block the calling process until pred(p) is false (thread mode); in single-thread mode a block is a deadlock */
 static void sim_block(int (*pred)(simproc *), const char *what) {
   simproc *p = sim_cur;
@@ -333,6 +336,8 @@ static void sim_block(int (*pred)(simproc *), const char *what) {
   pthread_mutex_unlock(&mu);
   if (world_crashed) { p->crashed = 1; proc_leave(p); }
 }
+
+void sim_wait(int (*pred)(simproc *), const char *what) { sim_block(pred, what); }
 
 /* ------------------------------------------------------------------ crash relation */
 
@@ -396,7 +401,8 @@ int open(const char *path, int flags, ...) {
   simproc *p = sim_cur; char abs[200]; normpath(p->cwd, path, abs, sizeof abs);
   const char *kind = (flags & O_EXCL) ? "open_excl" : (flags & O_APPEND) ? "open_append" : (flags & O_TRUNC) ? "open_trunc"
                      : ((flags & O_ACCMODE) == O_WRONLY) ? "open_write" : "open_read";
-  GATE(kind);
+  size_t al = strlen(abs); int istrig = al >= 12 && !strcmp(abs + al - 12, "lock/trigger");
+  GATE(istrig ? (((flags & O_ACCMODE) == O_WRONLY) ? "open_trigger_w" : "open_trigger_r") : kind);
   if (faulted) { if (ferr == -1) ferr = EIO; sim_tr("P%d #%d %s %s -> -1 e%d FAULT\n", p->idx, p->ncalls, kind, rel(abs), ferr); FAIL(ferr); }
   int ino = sim_lookup(abs);
   int e = 0;
@@ -414,7 +420,7 @@ int open(const char *path, int flags, ...) {
     if ((flags & O_ACCMODE) == O_WRONLY) {
       if (n->readers == 0) {
         if (flags & O_NONBLOCK) { sim_tr("P%d #%d %s %s -> -1 e%d\n", p->idx, p->ncalls, kind, rel(abs), ENXIO); FAIL(ENXIO); }
-        blk_ino = ino; sim_block(fifo_wait_reader, "open_fifo_w");
+        p->wait_obj = ino; sim_block(fifo_wait_reader, "open_fifo_w");
       }
       f->kind = SFD_FIFO_W; n->writers++;
     } else { f->kind = SFD_FIFO_R; n->readers++; }
@@ -428,7 +434,7 @@ int open(const char *path, int flags, ...) {
   sim_tr("P%d #%d %s %s -> %d ino=%d\n", p->idx, p->ncalls, kind, rel(abs), fd, ino);
   return fd;
 }
-static int fifo_wait_reader(simproc *p) { return W.ino[blk_ino].readers == 0; }
+static int fifo_wait_reader(simproc *p) { return W.ino[p->wait_obj].readers == 0; }
 
 int close(int fd) {
   if (!sim_on) { static int (*f)(int); if (!f) f = real("close"); return f(fd); }
@@ -477,7 +483,7 @@ ssize_t read(int fd, void *buf, size_t len) {
       break; }
     case SFD_PIPE_R: {
       simpipe *q = &W.pipe[f->aux];
-      if (q->data.n == 0 && !q->wclosed) { blk_pipe = f->aux; sim_block(pipe_wait_data, "read_pipe"); }
+      if (q->data.n == 0 && !q->wclosed) { p->wait_obj = f->aux; sim_block(pipe_wait_data, "read_pipe"); }
       r = q->data.n < len ? q->data.n : len; if (r) { memcpy(buf, q->data.p, r); memmove(q->data.p, q->data.p + r, q->data.n - r); }
       q->data.n -= r;
       break; }
@@ -493,7 +499,7 @@ ssize_t read(int fd, void *buf, size_t len) {
   else sim_tr("P%d #%d read %d -> %zd\n", p->idx, p->ncalls, fd, r);
   return r;
 }
-static int pipe_wait_data(simproc *p) { return W.pipe[blk_pipe].data.n == 0 && !W.pipe[blk_pipe].wclosed; }
+static int pipe_wait_data(simproc *p) { return W.pipe[p->wait_obj].data.n == 0 && !W.pipe[p->wait_obj].wclosed; }
 
 ssize_t write(int fd, const void *buf, size_t len) {
   if (!sim_on) { static ssize_t (*f)(int, const void *, size_t); if (!f) f = real("write"); return f(fd, buf, len); }
@@ -501,7 +507,7 @@ ssize_t write(int fd, const void *buf, size_t len) {
   if (!f) FAIL(EBADF);
   if (f->kind == SFD_SINK) { hbuf_add(&W.sink[f->aux], buf, len); if (sim_sink_hook) sim_sink_hook(p, fd); return len; }   /* logs: not a scheduling point */
   if (f->kind == SFD_NULL) return len;
-  GATE("write");
+  GATE(f->kind == SFD_FIFO_W ? "write_fifo" : "write");
   size_t wlen = len;
   if (faulted && f->kind == SFD_PIPE_W) faulted = 0;
   if (faulted) {
@@ -580,7 +586,7 @@ off_t lseek(int fd, off_t off, int whence) {
 int link(const char *a, const char *b) {
   if (!sim_on) { static int (*f)(const char *, const char *); if (!f) f = real("link"); return f(a, b); }
   simproc *p = sim_cur; char pa[200], pb[200]; normpath(p->cwd, a, pa, sizeof pa); normpath(p->cwd, b, pb, sizeof pb);
-  GATE("link");
+  GATE(strstr(pb, "/queue/todo/") ? "link_todo" : "link");
   if (faulted) { sim_tr("P%d #%d link %s %s -> -1 e%d FAULT\n", p->idx, p->ncalls, rel(pa), rel(pb), ferr == -1 ? EIO : ferr); FAIL(ferr == -1 ? EIO : ferr); }
   int ino = sim_lookup(pa); int e = 0;
   if (ino < 0) e = ENOENT; else if (sim_lookup(pb) >= 0) e = EEXIST; else if (!parent_is_dir(pb)) e = ENOENT;
@@ -662,25 +668,28 @@ int chdir(const char *a) {
 }
 
 /* directory streams: entries are visited in dent-array order, live */
-typedef struct { int magic; char dir[200]; int pos; int dots; struct dirent de; int proc; } simdir;
+typedef struct { int magic; char dir[200]; int pos; int dots; struct dirent de; int proc; int limit; } simdir;
+int sim_readdir_snapshot;   /* 1: a directory stream returns only entries that existed at opendir */
 DIR *opendir(const char *a) {
   if (!sim_on) { static DIR *(*f)(const char *); if (!f) f = real("opendir"); return f(a); }
   simproc *p = sim_cur; char pa[200]; normpath(p->cwd, a, pa, sizeof pa);
-  GATE("opendir");
+  size_t pl = strlen(pa); int istodo = pl >= 11 && !strcmp(pa + pl - 11, "/queue/todo");
+  GATE(istodo ? "opendir_todo" : "opendir");
   if (faulted) { sim_tr("P%d #%d opendir %s -> 0 e%d FAULT\n", p->idx, p->ncalls, rel(pa), ferr == -1 ? EIO : ferr); errno = ferr == -1 ? EIO : ferr; return 0; }
   int ino = sim_lookup(pa);
   if (ino < 0 || W.ino[ino].type != SI_DIR) { sim_tr("P%d #%d opendir %s -> 0 e%d\n", p->idx, p->ncalls, rel(pa), ENOENT); errno = ENOENT; return 0; }
-  simdir *d = calloc(1, sizeof *d); d->magic = 0x51D1; snprintf(d->dir, sizeof d->dir, "%s", pa); d->pos = 0; d->dots = 0; d->proc = p->idx;
+  simdir *d = calloc(1, sizeof *d); d->magic = 0x51D1; snprintf(d->dir, sizeof d->dir, "%s", pa); d->pos = 0; d->dots = 0; d->proc = p->idx; d->limit = sim_readdir_snapshot ? W.ndent : SIM_MAXDENT;
   sim_tr("P%d #%d opendir %s -> ok\n", p->idx, p->ncalls, rel(pa));
   return (DIR *)d;
 }
 struct dirent *readdir(DIR *dp) {
   if (!sim_on) { static struct dirent *(*f)(DIR *); if (!f) f = real("readdir"); return f(dp); }
   simproc *p = sim_cur; simdir *d = (simdir *)dp;
-  GATE("readdir"); (void)faulted;
+  size_t dl0 = strlen(d->dir); int istodo = dl0 >= 11 && !strcmp(d->dir + dl0 - 11, "/queue/todo");
+  GATE(istodo ? "readdir_todo" : "readdir"); (void)faulted;
   if (d->dots < 2) { strcpy(d->de.d_name, d->dots ? ".." : "."); d->dots++; d->de.d_ino = 1; return &d->de; }
   size_t dl = strlen(d->dir);
-  while (d->pos < W.ndent) {
+  while (d->pos < W.ndent && d->pos < d->limit) {
     simdent *e = &W.dent[d->pos++];
     if (e->ino < 0) continue;
     if (strncmp(e->path, d->dir, dl) || e->path[dl] != '/' || strchr(e->path + dl + 1, '/')) continue;
@@ -713,7 +722,7 @@ int utime(const char *a, const struct utimbuf *t) {
   return utimes(a, tv);
 }
 
-static int flock_wait(simproc *p) { return W.ino[blk_ino].lockproc != -1 && W.ino[blk_ino].lockproc != p->idx; }
+static int flock_wait(simproc *p) { return W.ino[p->wait_obj].lockproc != -1 && W.ino[p->wait_obj].lockproc != p->idx; }
 int flock(int fd, int op) {
   if (!sim_on) { static int (*f)(int, int); if (!f) f = real("flock"); return f(fd, op); }
   simproc *p = sim_cur; simfd *f = fd_get(fd);
@@ -724,7 +733,7 @@ int flock(int fd, int op) {
   if (op & LOCK_UN) { if (n->lockproc == p->idx) n->lockproc = -1; sim_tr("P%d #%d flock_un ino=%d -> 0\n", p->idx, p->ncalls, f->ino); return 0; }
   if (n->lockproc != -1 && n->lockproc != p->idx) {
     if (op & LOCK_NB) { sim_tr("P%d #%d flock_nb ino=%d -> -1 e%d\n", p->idx, p->ncalls, f->ino, EWOULDBLOCK); FAIL(EWOULDBLOCK); }
-    blk_ino = f->ino; sim_block(flock_wait, "flock");
+    p->wait_obj = f->ino; sim_block(flock_wait, "flock");
   }
   n->lockproc = p->idx;
   sim_tr("P%d #%d flock ino=%d -> 0\n", p->idx, p->ncalls, f->ino);
